@@ -85,6 +85,8 @@ struct Plan {
     /// object-store backend only: schedule the metadata client's own GET/PUT requests one by one
     /// (CAS loops of the two compactors interleave, conflict and retry) instead of whole operations
     raw: bool,
+    /// fault at the n-th complete_compaction request (the swap itself): (n, 1 before | 2 after)
+    fault_swap: Option<(usize, u8)>,
 }
 
 impl Plan {
@@ -99,6 +101,7 @@ impl Plan {
             "fault": self.fault.map(|(i, k)| json!([i, k])), "crash": self.crash,
             "tick": self.tick.map(|(i, d)| json!([i, d])), "renew": self.renew,
             "tail_renewals": self.tail_renewals, "raw": self.raw,
+            "fault_swap": self.fault_swap.map(|(i, k)| json!([i, k])),
         })
     }
     fn from_json(v: &Value) -> Plan {
@@ -128,6 +131,7 @@ impl Plan {
             renew: v["renew"].as_u64().map(|x| x as usize),
             tail_renewals: u("tail_renewals") as usize,
             raw: v["raw"].as_bool().unwrap_or(false),
+            fault_swap: pair("fault_swap").map(|(i, k)| (i as usize, k as u8)),
         }
     }
 }
@@ -334,6 +338,10 @@ struct RunOut {
     merges: usize,
     notes: Vec<String>,
     renew_calls_after_end: usize,
+    /// levels in the previous catalog version (for: no live path's level ever decreases)
+    last_levels: BTreeMap<String, u32>,
+    /// target -> 1 + max level of the sources it replaced (over every swap that took effect)
+    expected_level: BTreeMap<String, u32>,
 }
 
 struct Incarnation {
@@ -521,6 +529,7 @@ async fn run_plan(plan: &Plan) -> RunOut {
     let mut guard = 0usize;
     let mut script: Vec<(usize, usize)> = plan.script.clone();
     let mut op_fault: HashMap<usize, char> = HashMap::new();
+    let mut swaps_seen = 0usize;
     let mut processed: HashMap<usize, usize> = HashMap::new();
 
     for inc in incs.iter_mut() {
@@ -614,6 +623,7 @@ async fn run_plan(plan: &Plan) -> RunOut {
                     let o = env.observe().await;
                     out.labels.push(format!("t {}", d));
                     out.tokens.push(format!("16:0:0@{}", env.show(&o)));
+                    check_levels(&o, &mut out, "after a clock tick");
                     prev = o;
                 }
             }
@@ -649,6 +659,17 @@ async fn run_plan(plan: &Plan) -> RunOut {
         }
 
         let mut action = Action::Proceed;
+        // the swap request itself: the complete_compaction operation, or (request-level mode) its conditional PUT
+        let is_swap_req = (is_gate && kind == 7)
+            || (meta_sub && req.verb == "PUT" && rec.as_ref().map(|r| r.op == "complete").unwrap_or(false));
+        if is_swap_req {
+            if let Some((n, k)) = plan.fault_swap {
+                if n == swaps_seen {
+                    action = if k == 1 { Action::FailBefore } else { Action::FailAfter };
+                }
+            }
+            swaps_seen += 1;
+        }
         if can_fault {
             if let Some((at, k)) = plan.fault {
                 if at == faultable {
@@ -792,8 +813,10 @@ async fn run_plan(plan: &Plan) -> RunOut {
                     let want = r.paths.iter().filter_map(|p| levels_before.get(p)).max().copied().unwrap_or(0) + 1;
                     let got = o.cat.get(&r.target).map(|x| x.0);
                     if got != Some(want) {
-                        out.oracle.push(format!("level rule: target swapped in at level {:?}, expected {}", got, want));
+                        out.oracle.push(format!("LEVEL: target swapped in at level {:?}, 1 + the highest source level is {}", got, want));
                     }
+                    let e = out.expected_level.entry(r.target.clone()).or_insert(0);
+                    *e = (*e).max(want);
                 }
                 prev = o;
             }
@@ -852,12 +875,14 @@ async fn run_plan(plan: &Plan) -> RunOut {
                     let got = o.cat.get(&r.target).map(|x| x.0);
                     if got != Some(want) {
                         out.oracle.push(format!(
-                            "level rule: target swapped in at level {:?}, sources {:?} had maximum level {}",
+                            "LEVEL: target swapped in at level {:?}, sources {:?} had maximum level {}",
                             got,
                             r.paths.iter().map(|p| levels_before.get(p).copied()).collect::<Vec<_>>(),
                             want - 1
                         ));
                     }
+                    let e = out.expected_level.entry(r.target.clone()).or_insert(0);
+                    *e = (*e).max(want);
                 }
             }
         }
@@ -865,6 +890,13 @@ async fn run_plan(plan: &Plan) -> RunOut {
     }
 
     out.quiescent_end = !incs.iter().any(|i| i.in_group);
+    // the final catalog of every scenario goes through the whole oracle once more
+    {
+        let o = env.observe().await;
+        let q = out.quiescent_end;
+        check_oracle(&initial, &o, q, &mut out, "final catalog");
+        prev = o;
+    }
     // K4 probe: do renewal tasks outlive the cycles they were started in?
     for _ in 0..plan.tail_renewals {
         let before = env.shared.calls.lock().unwrap().iter().filter(|r| r.op == "renew").count();
@@ -905,6 +937,7 @@ async fn renewal_round(env: &mut Env, ctl: &mut Controller, incs: &[Incarnation]
         let o = env.observe().await;
         out.labels.push(format!("r {} {}", comp, lid));
         out.tokens.push(format!("12:{}:{}@{}", lid, if ok { 0 } else { 2 }, env.show(&o)));
+        check_levels(&o, out, "after a lease renewal");
         *prev = o;
     }
 }
@@ -925,6 +958,29 @@ fn check_oracle(initial: &[u64], o: &Obs, quiescent: bool, out: &mut RunOut, at:
             at
         ));
     }
+    check_levels(o, out, at);
+}
+
+/// level oracle on every catalog version: a published target sits at 1 + the
+/// highest level of the sources it replaced for as long as it is catalogued,
+/// and no live path's level ever decreases from one catalog version to the next
+fn check_levels(o: &Obs, out: &mut RunOut, at: &str) {
+    for (p, (lv, _)) in o.cat.iter() {
+        if let Some(old) = out.last_levels.get(p) {
+            if lv < old {
+                out.oracle.push(format!("LEVEL: the level of a catalogued chunk went down from {} to {} ({})", old, lv, at));
+            }
+        }
+        if let Some(want) = out.expected_level.get(p) {
+            if lv != want {
+                out.oracle.push(format!(
+                    "LEVEL: a published target is at level {} but 1 + the highest level of the sources it replaced is {} ({})",
+                    lv, want, at
+                ));
+            }
+        }
+    }
+    out.last_levels = o.cat.iter().map(|(p, (l, _))| (p.clone(), *l)).collect();
 }
 
 // --------------------------------------------------------------- driver --
@@ -1009,6 +1065,7 @@ fn gen_plan(rng: &mut Rng, thorough: bool) -> Plan {
         renew: None,
         tail_renewals: 0,
         raw: !local && rng.chance(1, 2),
+        fault_swap: None,
     }
 }
 
@@ -1017,7 +1074,7 @@ fn corpus() -> Vec<(&'static str, Plan)> {
     let base = Plan {
         local: true, threshold: 2, l1_target: 100_000, l2_target: 100_000, max_levels: 2, grace_secs: 300,
         chunks: vec![c(0, &[1, 2]), c(0, &[3, 4]), c(0, &[6, 5])], ncomp: 1, cycles: 1, restart_cycles: 1,
-        sched_seed: 1, policy: 1, script: vec![], fault: None, crash: None, tick: None, renew: None, tail_renewals: 0, raw: false,
+        sched_seed: 1, policy: 1, script: vec![], fault: None, crash: None, tick: None, renew: None, tail_renewals: 0, raw: false, fault_swap: None,
     };
     let mut v = Vec::new();
     // the case of the fixed finding 4d073e9: three L0 chunks in one hour, one cycle
@@ -1068,6 +1125,15 @@ fn corpus() -> Vec<(&'static str, Plan)> {
     for (name, local) in [("k5-unswapped-target-local", true), ("k5-unswapped-target-s3", false)] {
         v.push((name, Plan { local, chunks: vec![c(1, &[1, 2]), c(1, &[3])], l1_target: 150, threshold: 1, ncomp: 2, script: vec![(0, 9), (1, 100), (0, 100)], ..base.clone() }));
     }
+    // fault after effect at complete_compaction of a level-1 and of a level-2 group (faultable requests of the
+    // group: acquire 0, job 1, get 2, get 3, put 4, register 5, complete 6): the swap is applied, the error
+    // leaves the cycle; the published target must stay one level above its sources in every later catalog
+    for (name, local) in [("swap-fail-after-l1-local", true), ("swap-fail-after-l1-s3", false)] {
+        v.push((name, Plan { local, fault: Some((6, 2)), cycles: 3, ..lvl.clone() }));
+    }
+    for (name, local) in [("swap-fail-after-l2-local", true), ("swap-fail-after-l2-s3", false)] {
+        v.push((name, Plan { local, chunks: vec![c(2, &[1, 2]), c(2, &[3]), c(0, &[4])], l1_target: 100_000, l2_target: 150, max_levels: 3, threshold: 3, fault: Some((6, 2)), cycles: 3, ..base.clone() }));
+    }
     // raw mode (object-store backend): every GET / conditional PUT of the metadata operations is a step of its own
     v.push(("raw-l0-merge-s3", Plan { local: false, raw: true, ..base.clone() }));
     v.push(("raw-two-compactors-alternating-s3", Plan { local: false, raw: true, ncomp: 2, policy: 2, chunks: vec![c(0, &[1, 2]), c(0, &[3, 4]), c(1, &[5]), c(1, &[6])], l1_target: 150, ..base.clone() }));
@@ -1107,7 +1173,7 @@ fn main() {
         let b = Plan {
             local: true, threshold: 2, l1_target: 150, l2_target: 100_000, max_levels: 2, grace_secs: 0,
             chunks: vec![c(0, &[1, 2]), c(0, &[4, 3]), c(1, &[5]), c(1, &[6, 7])], ncomp: 1, cycles: 2, restart_cycles: 1,
-            sched_seed: 7, policy: 1, script: vec![], fault: None, crash: None, tick: None, renew: None, tail_renewals: 0, raw: false,
+            sched_seed: 7, policy: 1, script: vec![], fault: None, crash: None, tick: None, renew: None, tail_renewals: 0, raw: false, fault_swap: None,
         };
         let mut v = vec![b.clone(), Plan { local: false, ..b.clone() }, Plan { local: false, raw: true, cycles: 1, ..b.clone() }];
         if thorough {
@@ -1136,6 +1202,21 @@ fn main() {
     for i in 0..nrand {
         let mut p = gen_plan(&mut rng, thorough);
         let probe_len = 24 + p.chunks.len() * 3;
+        if rng.chance(1, 5) {
+            // aim at the swap: mostly "applied but reported as failed"
+            p.fault_swap = Some((rng.below(3) as usize, if rng.chance(3, 4) { 2 } else { 1 }));
+            if rng.chance(1, 2) {
+                // make sure there is a group above level 0 to swap
+                for c in p.chunks.iter_mut().take(3) {
+                    c.level = 1 + (p.sched_seed % 2) as u32;
+                    c.size = 100;
+                }
+                p.l1_target = 150;
+                p.l2_target = 150;
+                p.max_levels = 3;
+                p.cycles = 2;
+            }
+        }
         match rng.below(10) {
             0..=2 => p.fault = Some((rng.below(probe_len as u64) as usize, 1 + rng.below(2) as u8)),
             3..=4 => p.crash = Some(rng.below(probe_len as u64) as usize),
@@ -1185,7 +1266,8 @@ fn main() {
         report.bump(&format!("kind.{}", kind));
         report.bump(if plan.local { "backend.in-memory" } else if plan.raw { "backend.object-store(request-level)" } else { "backend.object-store" });
         report.bump(&format!("compactors.{}", plan.ncomp));
-        if plan.fault.is_some() { report.bump("with.fault"); }
+        if plan.fault.is_some() || plan.fault_swap.is_some() { report.bump("with.fault"); }
+        if plan.fault_swap.is_some() { report.bump("with.fault-at-swap"); }
         if plan.crash.is_some() { report.bump("with.crash"); }
         if plan.tick.is_some() { report.bump("with.lease-aging"); }
         report.bump_by("requests.modelled", vd.out.labels.len() as u64);
@@ -1215,7 +1297,8 @@ fn main() {
             if !seen.insert(head.clone()) {
                 continue;
             }
-            // only the duplicate condition has known classes; a lost row or a wrong level never has
+            // only the duplicate condition has known classes; a lost row, a wrong or decreasing level and a
+            // leaked renewal task are never explained by a row-multiset class
             let class = if head == "DUP" { class_name(&vd.class) } else { "" };
             if class.is_empty() {
                 unclassified.push((o.clone(), plan.to_json()));
